@@ -27,6 +27,8 @@ FmtCustom == {"msg", "two"}
 FmtAll == {"normal", "msg", "two"}
 Gaps2 == {0, 103}                                         \* throttle off / 0.1 s
 GapOn == {103}
+Gaps3 == {0, 103, 3000}                                  \* ... / 2.9 s: longer than the maximum interval of 1 s
+GapsOffBig == {0, 3000}
 W1 == {4}
 W3 == {1, 4, 10}
 Max4 == {0, 1, 3, 10}
